@@ -59,6 +59,16 @@ DESCR = {
  "C09-d": ("relay release hook attached to the last alias of an allocation instead of the first", "relay address rewrite yielding ≥2 addresses and Restart/Close while the TURN Allocate is in flight, response afterwards"),
  "C12-c": ("connWorker registers the source address on receive after the ufrag lookup", "STUN from a new address carrying the ufrag of a conn → later non-STUN from that address; or an address moving between conns"),
  "C12-d": ("a muxed conn closed through its own Close keeps its address bindings", "conn.Close() (not RemoveConnByUfrag) after addresses were bound, then traffic from those addresses / a new conn with another ufrag"),
+ "C02-c": ("liveness clause: the validated-source cache is consulted before the STUN branch, so any STUN-looking datagram from a cached address refreshes LastReceived", "the address first delivered application data to that local candidate (cache filled); then forged/unauthenticated STUN through the socket path"),
+ "C02-d": ("still-outstanding clause: expired transactions are pruned only when the transaction id is not found", "answer arrives > 4 s after its request and the agent sent no Binding request in between"),
+ "C04-c": ("data on the cached fast path no longer refreshes liveness", "no STUN arriving while ≥ 2 data packets flow from the selected remote (keepalive 0 / peer that stops answering)"),
+ "C04-d": ("explicit zero DisconnectedTimeout in AgentConfig not treated as explicit: a lite agent gets the 10 s lite default back", "lite agent built from AgentConfig with DisconnectedTimeout=&0; silence > 10 s or never selecting"),
+ "C05-c": ("a same-role request whose tie-breaker is 0 is not treated as a role conflict", "sender's tie-breaker exactly 0"),
+ "C05-d": ("a lite agent never leaves the controlled role on a conflict", "lite receiver in the controlled role holding the larger or equal tie-breaker"),
+ "C07-c": ("Write/WriteToPair refuse STUN only when the first byte is 0..3", "payload with first byte ≥ 4 and the magic cookie at offset 4 that decodes as STUN (e.g. RTP v2 header with timestamp 0x2112A442)"),
+ "C07-d": ("inbound bytes are added to the selected pair only if the datagram travelled over that pair", "accepted datagram from another known remote / on another local candidate while one pair stays selected"),
+ "C10-c": ("startConnectivityChecks releases the start mutex before its task-loop round trips (check-then-act)", "two start calls in flight at once, the second check before the first start task runs"),
+ "C10-d": ("Binding indications are handled on the receive goroutine instead of as a loop task", "a Binding indication arriving while the remote candidate set changes (AddRemoteCandidate, Restart, Failed)"),
 }
 res = {}
 for ln in open('/verif/.work/confirm_results.txt'):
